@@ -20,6 +20,7 @@ import (
 	"fmt"
 	"io"
 	"math"
+	"sort"
 	"time"
 
 	"github.com/pkg/errors"
@@ -224,6 +225,10 @@ func (b *backend) GetPartitions(ctx context.Context, r *proto.ListPartitionReque
 		klog.Errorf("backend getPartitions %v return err %v", r, err)
 		return nil, err
 	}
+	// the engine may list its partitions in any order: advertise them in key order, as the scanner scans them
+	sort.Slice(partitions, func(i, j int) bool {
+		return bytes.Compare(partitions[i].Start, partitions[j].Start) < 0
+	})
 	resp = &proto.ListPartitionResponse{
 		Header:       responseHeader(rev),
 		PartitionNum: int64(len(partitions)),
